@@ -701,6 +701,6 @@ fn main() {
 	let reg: Vec<Case> = check.regression_cases("serve");
 	check.enumerate("regressions", reg, false, oracle);
 	check.enumerate("fixed", fixed_cases(), false, oracle);
-	check.phase("serve", check.cases(300, 8000), strategy, oracle);
+	check.phase("serve", check.cases(1500, 50_000), strategy, oracle);
 	check.finish();
 }
